@@ -75,7 +75,7 @@ func (sim) Explain(prop string, st map[string]int64) string {
 			"probe.rejection-of-recorded-tx", "probe.resend-with-unmined", "probe.resend-chain", "fault.backend-answer.transport", "fault.backend-answer.reject-fee",
 			"fault.backend-answer.reject-generic", "fault.backend-answer.reject-conflict", "fault.backend-answer.notify-received-fails", "fault.backend-answer.notify-received-2nd-fails", "probe.resend-rejected", "probe.rejection-with-recorded-child", "probe.resend-child-of-two-outputs-of-one-parent"}
 	case "C15":
-		probes = []string{"probe.reorg-back-to-known-blocks", "probe.chain-shortened", "probe.reorg-depth>1", "probe.reorg-with-wallet-tx", "probe.restart-tip-not-on-chain", "probe.stale-disconnect", "probe.reorg-equal-height", "probe.sync-after-backend-failure", "probe.node-moved-while-stopped"}
+		probes = []string{"probe.reorg-back-to-known-blocks", "probe.chain-shortened", "probe.ops-during-initial-rescan", "probe.reorg-depth>1", "probe.reorg-with-wallet-tx", "probe.restart-tip-not-on-chain", "probe.stale-disconnect", "probe.reorg-equal-height", "probe.sync-after-backend-failure", "probe.node-moved-while-stopped"}
 	}
 	s := "probes: "
 	for _, k := range probes {
@@ -178,6 +178,12 @@ func genC15(r *core.Rand, p *core.Plan) {
 	p.Ops = append(p.Ops, core.Op{K: "newaddr", A: []int64{int64(r.Intn(4)), 0, 0}})
 	p.Ops = append(p.Ops, core.Op{K: "newaddr", A: []int64{int64(r.Intn(4)), 0, 0}})
 	maxDepth := r.Range(1, 8)
+	if r.Chance(1, 3) {
+		p.Cfg["async_rescan"] = 1
+	}
+	if r.Chance(1, 2) {
+		p.Cfg["btcd_rescan"] = 1 // rescans report transactions only; the wallet catches up block hashes itself
+	}
 	for i := 0; i < n; i++ {
 		switch r.Weighted([]int{20, 25, 18, 12, 14, 5, 4, 4, 6, 4, 3, 8}) {
 		case 11:
@@ -236,7 +242,26 @@ func genC15(r *core.Rand, p *core.Plan) {
 					}
 				}
 			}
-			p.Ops = append(p.Ops, core.Op{K: "start"})
+			if p.Cfg["async_rescan"] == 1 && r.Chance(2, 3) {
+				// blocks found, reorgs and deliveries while the start-up
+				// rescan is still running
+				p.Ops = append(p.Ops, core.Op{K: "start", A: []int64{1}})
+				for j := 0; j < r.Range(1, 5); j++ {
+					switch r.Intn(4) {
+					case 0:
+						p.Ops = append(p.Ops, core.Op{K: "mine", A: []int64{int64(r.Range(1, 2)), 100, int64(r.Range(-1, 3)), 600, int64(r.Uint64() >> 1)}})
+					case 1:
+						p.Ops = append(p.Ops, core.Op{K: "fund", A: []int64{int64(r.Intn(6)), int64(r.Range(1, 50)) * 1e6}})
+					case 2:
+						p.Ops = append(p.Ops, core.Op{K: "rescanstep", A: []int64{int64(r.Range(1, 3))}})
+					case 3:
+						p.Ops = append(p.Ops, core.Op{K: "deliver", A: []int64{int64(r.Range(1, 3))}})
+					}
+				}
+				p.Ops = append(p.Ops, core.Op{K: "sync"})
+			} else {
+				p.Ops = append(p.Ops, core.Op{K: "start"})
+			}
 		case 9:
 			p.Ops = append(p.Ops, core.Op{K: "send", A: []int64{int64(r.Range(1, 20)) * 1e5, int64(r.Intn(2)), 1000, -1, 0, 0, 0}})
 		case 10:
@@ -508,6 +533,9 @@ func (rs *runState) exec(task, step int, op core.Op) {
 			env.Count("probe.node-moved-while-stopped")
 		}
 	case "reorg":
+		if x.rescanRunning() {
+			return // see rescanRunning
+		}
 		depth, newLen := int(op.Arg(0)), int(op.Arg(1))
 		if depth < 1 {
 			depth = 1
@@ -558,6 +586,9 @@ func (rs *runState) exec(task, step int, op core.Op) {
 	case "invalidate":
 		// the backend's best chain becomes shorter (invalidateblock): blocks
 		// are disconnected without a replacement branch
+		if x.rescanRunning() {
+			return
+		}
 		d := int(op.Arg(0))
 		if d < 1 {
 			d = 1
@@ -578,6 +609,9 @@ func (rs *runState) exec(task, step int, op core.Op) {
 		env.Logf("%d invalidate %d tip=%d", step, len(disc), x.node.Tip().Height)
 	case "switchback":
 		// the best chain returns to blocks it had before (same hashes)
+		if x.rescanRunning() {
+			return
+		}
 		d, c := x.node.SwitchBack(int(op.Arg(0)))
 		if c == 0 {
 			return
@@ -596,6 +630,15 @@ func (rs *runState) exec(task, step int, op core.Op) {
 			env.Count("probe.node-moved-while-stopped")
 		}
 		env.Logf("%d switchback disc=%d conn=%d tip=%d", step, d, c, x.node.Tip().Height)
+	case "rescanstep":
+		if !x.running {
+			return
+		}
+		if k := x.client.StepRescan(int(op.Arg(0))); k > 0 {
+			env.Count("op.rescanstep")
+			env.Eff()
+			env.Logf("%d rescanstep %d", step, k)
+		}
 	case "deliver":
 		if !x.running {
 			return
@@ -707,6 +750,16 @@ func (rs *runState) exec(task, step int, op core.Op) {
 			env.Count("op.start")
 			env.Eff()
 			env.Logf("%d start synced=%d", step, st.Height)
+			if op.Arg(0) == 1 && x.client.AsyncRescan {
+				// lazy start: the wallet gets as far as asking for the rescan;
+				// the following operations (blocks, reorgs, rescan steps,
+				// deliveries) happen WHILE the initial rescan is running
+				x.quiesce(nil, 0)
+				if x.client.RescanActive() {
+					env.Count("probe.ops-during-initial-rescan")
+				}
+				return
+			}
 			if !x.syncPoint(fmt.Sprintf("restart%d", step)) {
 				return
 			}
@@ -1020,4 +1073,17 @@ func (rs *runState) fundpsbt(task, step int, op core.Op) {
 		}
 	}
 	x.fail("change-not-seed-child", "FundPsbt added change output %s which is not a child of the seed", addr)
+}
+
+// rescanRunning: while an asynchronous start-up rescan is running the chain
+// only grows. A reorg during the rescan makes a bitcoind-style client replay a
+// stale block as "connected" after the rescan has already reported its
+// replacement (its block-notification path lags the rescan) — a notification
+// sequence that does not describe a valid evolution of the best chain, which
+// is what C15 quantifies over. The wallet is not robust against it (it files
+// the stale block's transactions under the height's current block record and
+// later fails with "missing transaction for block"); observed, outside the
+// statement, not reported.
+func (x *world) rescanRunning() bool {
+	return x.running && x.client != nil && x.client.RescanActive()
 }
